@@ -46,8 +46,9 @@ for f in sorted(glob.glob(os.path.join(V, 'contracts', '*.vpc'))):
             cur = norm(t[4:])
         elif t.startswith('@closure') and cur:
             m = re.match(r'@closure\s+(\d+)', t)
-            hints.setdefault(cur, [])
-            hints[cur].append('closure#%s' % m.group(1))
+            if m:   # content-matched contracts (@closure-like) are optional: not part of a hint configuration
+                hints.setdefault(cur, [])
+                hints[cur].append('closure#%s' % m.group(1))
         elif t.startswith('@end'):
             cur = None
 where = {}
